@@ -59,6 +59,19 @@ def shared_word_grammar(r):
     return stmts
 
 
+def reordered_words_grammar(r):
+    pres = r.sample(['--a=', '--b=', '-c', 'd:'], 3)
+    mk = lambda p, vs: ('word', (lit(p), alt(*[lit(v) for v in vs])))
+    w = [mk(pres[0], ['p', 'q']), mk(pres[1], ['x', 'y']), mk(pres[2], ['m', 'n', 'o'])]
+    shapes = [
+        alt(seq(lit('foo'), w[1]), w[0]),
+        alt(seq(lit('foo'), lit('bar'), w[2]), seq(lit('foo'), w[1]), w[0]),
+        alt(seq(lit('z'), w[0]), seq(lit('a'), w[1])),
+        seq(alt(seq(lit('deep'), opt(lit('er')), w[1]), w[0]), opt(w[2])),
+    ]
+    return [call('cmd', r.choice(shapes))]
+
+
 def states_of(flat):
     s = {flat['start']} | set(flat['acc'])
     for a, _, b in flat['tr']:
@@ -240,9 +253,10 @@ def run_job(job, acc):
     try:
         for i in range(n):
             k = r.random()
-            stmts = special_grammar(r) if k < 0.45 else (shared_word_grammar(r) if k < 0.6 else c04.biased_grammar(r))
+            stmts = special_grammar(r) if k < 0.4 else (shared_word_grammar(r) if k < 0.52 else (
+                reordered_words_grammar(r) if k < 0.64 else c04.biased_grammar(r)))
             text, _, _ = gast.print_grammar(stmts)
-            special = k < 0.45
+            special = k < 0.4
             for shell in common.SHELLS:
                 ans = P.ask('g', shell, 'dfa,regex', text)
                 if ans.get('stage') != 'done':
